@@ -97,8 +97,15 @@ CONFIGS = {
     "fd-no-reuse": dict(compression_rank=1, block_size=8, frequent_directions=True),
     "fd-avg-grad": dict(compression_rank=1, block_size=8, frequent_directions=True, reuse_preconditioner=True, average_grad=True,
                         skip_preconditioning_rank_lt=2),
+    "fd-metrics-only": dict(compression_rank=1, block_size=8, frequent_directions=True, reuse_preconditioner=True, generate_fd_metrics=True,
+                            generate_training_metrics=False),
     "fd-metrics": dict(compression_rank=1, block_size=8, frequent_directions=True, reuse_preconditioner=True, generate_fd_metrics=True,
                        skip_preconditioning_rank_lt=2),
+    "graft-ADAGRAD": dict(graft_type="ADAGRAD"),
+    "graft-ADAGRAD_NORMALIZED": dict(graft_type="ADAGRAD_NORMALIZED"),
+    "graft-RMSPROP_NORMALIZED": dict(graft_type="RMSPROP_NORMALIZED"),
+    "graft-SQRT_N": dict(graft_type="SQRT_N"),
+    "graft-NONE": dict(graft_type="NONE"),
     "fd-reset": dict(compression_rank=1, block_size=8, frequent_directions=True, reuse_preconditioner=True, reset_preconditioner=True),
 }
 
@@ -301,6 +308,8 @@ def tasks(tier):
       ts.append(Task(f"tearfree shampoo accepts-or-rejects[{shape}]", mk_tf_shampoo_accept(shape)))
   for cname in CONFIGS:
     for tname in TREES:
+      if cname.startswith("graft-") and tname not in ("matrix", "mixed"):
+        continue  # the grafting type does not interact with the tree shape: two trees suffice
       if tname == "mixed" and (cname.startswith("fd") or cname == "compressed"):
         continue  # the low-rank routines on a two-leaf tree take minutes of solver-aided simplification; other trees cover them
       ts.append(Task(f"layout[{cname},{tname}]", mk_layout(cname, tname)))
